@@ -314,6 +314,14 @@ for k in ["a", "", "é", "a b"]:
             n += 1
             if calc_id(sp) != refs.canon_id(sp): bad.append(("table", repr(sp), calc_id(sp), refs.canon_id(sp)))
             if len(calc_id(sp)) != 32 or calc_id(sp) != calc_id(sp).lower(): bad.append(("format", repr(sp)))
+# flat state points in ONE process, values that are == but of different JSON type next to each other (a memo keyed on == would mix them up)
+flat = [0, False, 0.0, 1, True, 1.0, -1, -1.0, 2, 2.0, "1", "", None, [1], [1.0], [True], (1, 2.0), [1, 2]]
+for rnd in (0, 1):
+    for k in ["a", "b"]:
+        for v in (flat if rnd == 0 else flat[::-1]):
+            for sp in ({k: v}, {k: v, "c": 0}, {k: v, "c": 0.0}):
+                n += 1
+                if calc_id(sp) != refs.canon_id(sp): bad.append(("flat", repr(sp), calc_id(sp), refs.canon_id(sp)))
 print(json.dumps({"n": n, "bad": bad[:5]}))
 ''' % (os.path.dirname(os.path.dirname(os.path.abspath(__file__))), GOLDEN, SIGMA, FLOATS)
     env = dict(os.environ)
